@@ -839,6 +839,12 @@ func runC20(a vh.Args, o *vh.Oracle, r *vh.Result) error {
 				return c20Leftover(a, r, &tc)
 			}
 			return c20TwoFormatConcurrent(a, r, &tc)
+		case "store-fault":
+			var fc c20FaultCase
+			if err := readJSON(a.Replay, &fc); err != nil {
+				return err
+			}
+			return c20StoreFault(a, r, &fc)
 		case "serve":
 			var sc c20ServeCase
 			if err := readJSON(a.Replay, &sc); err != nil {
@@ -930,6 +936,9 @@ func runC20(a vh.Args, o *vh.Oracle, r *vh.Result) error {
 		return err
 	}
 	if err := c20TmpAll(a, r, rng); err != nil {
+		return err
+	}
+	if err := c20StoreFaultAll(a, r, rng); err != nil {
 		return err
 	}
 	c20Fixtures(a, r)
